@@ -80,7 +80,8 @@ def shape_zoo(ns):
         "Ohm", "Volt", "(Milli*Volt)", "Farad", "(Micro*Farad)", "Siemens",
         "Mole", "Candela", "Lumen", "Lux", "Katal",
     ]
-    return [s for s in z if _evaluates(s, ns)]
+    # every shape is handed out as ONE parenthesised atom: callers splice them into larger expressions ("x / <shape>", "<shape>**2")
+    return ["(%s)" % s for s in z if _evaluates(s, ns)]
 
 
 def _evaluates(src, ns):
